@@ -74,17 +74,17 @@ theorem lsize_loopCode (l : Loc) (ci cs car c0 : Nat) (body : List LInstr) :
     lsize (loopCode l ci cs car c0 body) = lsize body + 31 := by
   unfold loopCode; ip_arith
 
-theorem loopCode_body {P : Prog} {k0 : Nat} {l : Loc} {ci cs car c0 : Nat} {body rest : List LInstr}
+theorem loopCode_body {P : LProg} {k0 : Nat} {l : Loc} {ci cs car c0 : Nat} {body rest : List LInstr}
     (h : CodeAt P k0 (loopCode l ci cs car c0 body ++ rest)) : CodeAt P (k0 + 24) body := by
   have := h.left.left.right
   exact this.cast (by ip_arith)
 
 section
-variable {c : Cfg} {P : Prog} {l : Loc} {ci cs car c0 : Nat} {body : List LInstr} {k0 : Nat}
+variable {c : Cfg} {P : LProg} {l : Loc} {ci cs car c0 : Nat} {body : List LInstr} {k0 : Nat}
   {st : List Val} {scs : List Scope}
 
 /-- what one run of the closure body plus the builtin's own per-element code has to achieve -/
-def BodyPost (c : Cfg) (P : Prog) {α : Type} (S : α → List Val) (Extra : Scope → Nat → α → Prop) (coll : Val) (N i : Nat)
+def BodyPost (c : Cfg) (P : LProg) {α : Type} (S : α → List Val) (Extra : Scope → Nat → α → Prop) (coll : Val) (N i : Nat)
     (kinc kexit : Nat) (st : List Val) (scs : List Scope) (s0 : VM) (res : R (α ⊕ Val)) (σ1 : SState) : Prop :=
   match res with
   | .ok (.inl acc') => ∃ sc', Base sc' coll N i ∧ Extra sc' (i + 1) acc' ∧
@@ -93,7 +93,7 @@ def BodyPost (c : Cfg) (P : Prog) {α : Type} (S : α → List Val) (Extra : Sco
   | .error e => ReachErr c P s0 e σ1
 
 /-- what the whole loop achieves from the loop head -/
-def LoopPost (c : Cfg) (P : Prog) {α : Type} (S : α → List Val) (Extra : Scope → Nat → α → Prop) (coll : Val) (N : Nat)
+def LoopPost (c : Cfg) (P : LProg) {α : Type} (S : α → List Val) (Extra : Scope → Nat → α → Prop) (coll : Val) (N : Nat)
     (kend kexit : Nat) (st : List Val) (scs : List Scope) (s0 : VM) (res : R (α ⊕ Val)) (σ' : SState) : Prop :=
   match res with
   | .ok (.inl acc') => ∃ sc', Base sc' coll N N ∧ Extra sc' N acc' ∧
@@ -117,11 +117,11 @@ theorem loop_iter {α : Type} (fb : Nat → α → SM (α ⊕ Val)) (S : α → 
     (coll : Val) (N : Nat) (hN : (N : Int) < 2 ^ 63) (kexit : Nat)
     (hcode : CodeAt P k0 (loopCode l ci cs car c0 body)) (hK : LoopK P.consts ci cs car c0)
     (Hbody : ∀ (i : Nat) (acc : α) (σ : SState) (res : R (α ⊕ Val)) (σ1 : SState) (sc : Scope), i < N →
-      Base sc coll N i → Extra sc i acc → fb i acc σ = (res, σ1) →
+      Base sc coll N i → Extra sc i acc → fb i acc σ = (res, σ1) → RBlame P l res →
       BodyPost c P S Extra coll N i (k0 + 24 + lsize body) kexit st scs
         (vm (k0 + 24) (S acc ++ st) (sc :: scs) σ c.budget) res σ1) :
     ∀ (fuel i : Nat) (acc : α) (sc : Scope) (σ : SState) (res : R (α ⊕ Val)) (σ' : SState), i + fuel = N →
-      Base sc coll N i → Extra sc i acc → loopIdx fb fuel i acc σ = (res, σ') →
+      Base sc coll N i → Extra sc i acc → loopIdx fb fuel i acc σ = (res, σ') → RBlame P l res →
       LoopPost c P S Extra coll N (k0 + 31 + lsize body) kexit st scs
         (vm (k0 + 13) (S acc ++ st) (sc :: scs) σ c.budget) res σ' := by
   -- the fixed segments
@@ -135,7 +135,7 @@ theorem loop_iter {α : Type} (fb : Nat → α → SM (α ⊕ Val)) (S : α → 
   intro fuel
   induction fuel with
   | zero =>
-    intro i acc sc σ res σ' hi hb he hev
+    intro i acc sc σ res σ' hi hb he hev hblm
     have hiN : i = N := by omega
     subst hiN
     rw [loopIdx, SM.pure_apply] at hev
@@ -146,7 +146,7 @@ theorem loop_iter {α : Type} (fb : Nat → α → SM (α ⊕ Val)) (S : α → 
     simp only [hb.idx, Option.getD_some]
     refine Runs.load hcond.tail3 hK.size ?_
     simp only [hb.size, Option.getD_some]
-    refine Runs.andThen (Runs.binop hcond.tail3.tail3 (hlp := .less) rfl) ?_ ?_
+    refine Runs.andThen (Runs.binop hcond.tail3.tail3 (hlp := .less) rfl (fun e he => by rw [less_int] at he; cases he)) ?_ ?_
     · intro v hv
       rw [less_int] at hv
       cases hv
@@ -157,7 +157,7 @@ theorem loop_iter {α : Type} (fb : Nat → α → SM (α ⊕ Val)) (S : α → 
     · intro e he'
       rw [less_int] at he'; cases he'
   | succ fuel ih =>
-    intro i acc sc σ res σ' hi hb he hev
+    intro i acc sc σ res σ' hi hb he hev hblm
     have hiN : i < N := by omega
     rw [loopIdx, SM.bind_apply] at hev
     -- the head of the iteration: i < size, fall through, pop
@@ -168,7 +168,7 @@ theorem loop_iter {α : Type} (fb : Nat → α → SM (α ⊕ Val)) (S : α → 
       simp only [hb.idx, Option.getD_some]
       refine Runs.load hcond.tail3 hK.size ?_
       simp only [hb.size, Option.getD_some]
-      refine Runs.andThen (Runs.binop hcond.tail3.tail3 (hlp := .less) rfl) (Q := .ok _) ?_ ?_
+      refine Runs.andThen (Runs.binop hcond.tail3.tail3 (hlp := .less) rfl (fun e he => by rw [less_int] at he; cases he)) (Q := .ok _) ?_ ?_
       · intro v hv
         rw [less_int] at hv
         cases hv
@@ -183,7 +183,11 @@ theorem loop_iter {α : Type} (fb : Nat → α → SM (α ⊕ Val)) (S : α → 
     cases hfb : fb i acc σ with
     | mk r1 σ1 =>
     rw [hfb] at hev
-    have hbp := Hbody i acc σ r1 σ1 sc hiN hb he hfb
+    have hbp := Hbody i acc σ r1 σ1 sc hiN hb he hfb (by
+      intro e he1
+      subst he1
+      simp only [Prod.mk.injEq] at hev
+      exact hblm e hev.1.symm)
     cases r1 with
     | error e =>
       simp only [Prod.mk.injEq] at hev
@@ -210,7 +214,7 @@ theorem loop_iter {α : Type} (fb : Nat → α → SM (α ⊕ Val)) (S : α → 
           rw [this]
           exact (Reach.refl _).to_ip (by omega)
         refine LoopPost.of_reach hinc ?_
-        exact ih (i + 1) acc' _ σ1 res σ' (by omega) hb'.step (hEx _ _ _ _ he') hev
+        exact ih (i + 1) acc' _ σ1 res σ' (by omega) hb'.step (hEx _ _ _ _ he') hev hblm
 
 end
 
